@@ -13,6 +13,8 @@ Fully structural (tables extracted from writer, loader, schemas and enums, then 
   K6  every enum member is handled by the writer, the loader dispatch, the validator's schema map, the
       schema enum / const and set_design
   K7  the sections written = required by file_structure.schema.json = subscripted by the loader
+  K10 schema bounds fit the physical kind the schema annotates: Centigrade / Watts / Degrees properties are not bounded below by 0
+  K9  every key the writer emits is consumed by the loader (subscript, .get, or ** expansion of the section)
   K8  names are mapped to enum members by equality (or membership in a collection), never by `name in <string>`:
       a name that contains another member's name would be written to the file as that member
 
@@ -366,6 +368,29 @@ def check(prog: Program, tier: str) -> Result:
     _check_loader(prog, res, lfi, sec_tabs)
     _check_roundtrip(prog, res, sec_tabs)
     _check_enums(prog, res, wfi, lfi)
+    # K10 schema bounds fit the physical kind the schema itself annotates (format): a signed quantity must not be bounded below
+    #     by zero - the API accepts sub-zero temperatures / extraction loads / rotations, writes them, and the file would be refused
+    SIGNED = {"Centigrade": (-273.15, None), "Watts": (None, None), "Degrees": (-90.0, 90.0)}
+    n_signed = 0
+    for sname, sch in sorted(prog.schemas.items()):
+        for key, pdef in (sch.get("properties") or {}).items():
+            if not isinstance(pdef, dict) or pdef.get("format") not in SIGNED:
+                continue
+            n_signed += 1
+            lo_need, hi_need = SIGNED[pdef["format"]]
+            lo = pdef.get("minimum", pdef.get("exclusiveMinimum") if not isinstance(pdef.get("exclusiveMinimum"), bool) else None)
+            hi = pdef.get("maximum", pdef.get("exclusiveMaximum") if not isinstance(pdef.get("exclusiveMaximum"), bool) else None)
+            sub = pdef.get("items") if isinstance(pdef.get("items"), dict) else {}
+            lo = lo if lo is not None else sub.get("minimum")
+            hi = hi if hi is not None else sub.get("maximum")
+            ok = (lo is None or (lo_need is not None and lo <= lo_need)) and (hi is None or (hi_need is not None and hi >= hi_need))
+            res.ob("K10", f"{sname}: '{key}' ({pdef['format']}) is not bounded more tightly than its physical range (minimum {lo}, maximum {hi})", ok, f"ghedesigner/schemas/{sname}")
+            if not ok:
+                res.violation("K10", f"{sname}|{key}|bounds|{lo}|{hi}", f"ghedesigner/schemas/{sname}:1", "schemas",
+                              f"{sname} bounds '{key}' ({pdef['format']}) to [{lo}, {hi}]: the API accepts and writes values outside it (sub-zero temperatures are ordinary for antifreeze mixtures, "
+                              "extraction loads are negative) and the tool then refuses its own file")
+    res.count("signed_schema_properties", n_signed)
+    res.floor("signed_schema_properties", 6)
     # K8 names are mapped to enum members by equality with the member's name, never as substrings
     from ..memo import substring_tests
 
@@ -565,7 +590,32 @@ def _check_loader(prog: Program, res: Result, lfi, sec_tabs):
             res.violation("K4", f"{sec}|schema-prop-not-param|{k}", f"ghedesigner/schemas/{schema_name}:1", WORKER,
                           f"{schema_name} allows '{k}' but {meth}(**{sec}) has no such parameter (a valid file raises TypeError)")
     res.count("kwargs_sections", len(v.kw))
-    res.floor("kwargs_sections", 3)
+    # K9: every key the writer emits is consumed by the loader - read by subscript / .get, or covered by a ** expansion of its
+    # section.  A written value the loader does not pass on is replaced by the setter's default when the file is read back.
+    expanded = {sec for sec, _ in v.kw}
+    n_k9 = 0
+    for tk, (tab, schema_name) in sorted(sec_tabs.items()):
+        sec = tk[0]
+        if sec in expanded:
+            n_k9 += len(tab)
+            continue
+        read_keys = {ky for s_, ky, k_, g_, n_ in v.reads if s_ == sec and tk in variants_for(sec, g_)}
+        for n_ in ast.walk(lfi.node):  # inputs['sec']['key'] read without a section local
+            if isinstance(n_, ast.Subscript) and isinstance(n_.slice, ast.Constant) and isinstance(n_.value, ast.Subscript) and isinstance(n_.value.slice, ast.Constant) \
+                    and n_.value.slice.value == sec and isinstance(n_.value.value, ast.Name) and n_.value.value.id == _inputs_name(lfi):
+                read_keys.add(n_.slice.value)
+        for key, (val, cond, f) in sorted(tab.items()):
+            if key == "method" or key == "arrangement":
+                continue  # dispatch keys: read by the loader's own branches (K6 / K3)
+            n_k9 += 1
+            ok = key in read_keys
+            res.ob("K9", f"[{sec}{':' + tk[1] if tk[1] else ''}] written key '{key}' is read back by the loader", ok, prog.loc(f, val))
+            if not ok:
+                res.violation("K9", f"{sec}:{tk[1]}|written-not-read|{key}", prog.loc(f, val), WORKER,
+                              f"the writer emits [{sec}]['{key}'] but the loader never reads it: when the file is read back the setter's default takes the place of the configured value "
+                              "(the reconstructed configuration, the rewritten file and the design differ)")
+    res.count("written_keys", n_k9)
+    res.floor("written_keys", 30)
 
 
 # ---------------------------------------------------------------------------
@@ -1072,6 +1122,12 @@ def _check_enums(prog: Program, res: Result, wfi, lfi):
 
 
 VARIANTS = [
+    Variant("design schema: max_eft / min_eft bounded below by 0 (seeded C17_h)", "break",
+            [("schema:design.schema.json", '    "min_eft": {\n      "type": "number",\n', '    "min_eft": {\n      "type": "number",\n      "minimum": 0,\n')], "K10"),
+    Variant("the loader passes the fluid section key by key and leaves the temperature out (seeded C17_g)", "break",
+            [(MGR, "    ghe.set_fluid(**fluid_props, throw=False)\n", "    ghe.set_fluid(fluid_name=fluid_props[\"fluid_name\"], concentration_percent=fluid_props[\"concentration_percent\"], throw=False)\n")], "K9"),
+    Variant("the loader passes the fluid section key by key, all three keys", "benign",
+            [(MGR, "    ghe.set_fluid(**fluid_props, throw=False)\n", "    ghe.set_fluid(fluid_name=fluid_props[\"fluid_name\"], concentration_percent=fluid_props[\"concentration_percent\"], temperature=fluid_props[\"temperature\"], throw=False)\n")]),
     Variant("fluid name looked up by substring: METHYLALCOHOL becomes ETHYLALCOHOL (seeded C17_e)", "break",
             [("ghedesigner.media", '        if fluid_str == FluidType.ETHYLALCOHOL.name:\n            self.fluid_type = FluidType.ETHYLALCOHOL\n        elif fluid_str == FluidType.ETHYLENEGLYCOL.name:\n            self.fluid_type = FluidType.ETHYLENEGLYCOL\n        elif fluid_str == FluidType.METHYLALCOHOL.name:\n            self.fluid_type = FluidType.METHYLALCOHOL\n        elif fluid_str == FluidType.PROPYLENEGLYCOL.name:\n            self.fluid_type = FluidType.PROPYLENEGLYCOL\n        elif fluid_str == FluidType.WATER.name:\n            self.fluid_type = FluidType.WATER\n        else:\n', "        for fluid_type in FluidType:\n            if fluid_type.name in fluid_str:\n                self.fluid_type = fluid_type\n                break\n        else:\n")], "K8"),
     Variant("fluid name looked up in a loop over the enum, by equality", "benign",
